@@ -20,7 +20,7 @@ from ..tsu import StepHeart
 ID = 'C16'
 LEVEL = 'exploration'
 RULE = ('cases = rule graphs: exhaustive slice = every grammar of 1 rule (bodies: choices of <=2 sequences of <=2 items) and of 2 '
-        '(3 in the thorough tier) rules with small bodies, items from {call to each rule, \'x\', [\'x\'], {\'x\'}}; random slice = graphs of '
+        '(3 in the thorough tier) rules with small bodies, items from {call to each rule, \'x\', [\'x\'], {\'x\'}, {\'x\'}+}; random slice = graphs of '
         '<=6 rules with longer sequences/choices, nested optionals and closures; each compiled with left recursion off (detection) '
         'and on (flags), then parsed from every rule on the battery {"", x, xx, xxx, y, xy}; non-trivial = the graph has at least '
         'one left-recursive cycle per the independent analysis; distinct by grammar text')
@@ -29,7 +29,7 @@ ASSUMPTIONS = [
     'the detection and termination clauses are decided only for grammars in which no call to a nullable rule sits in such a prefix (as the statement restricts); those are counted as "hidden" and only observed',
     '"never recurses without bound" is decided by a rule-invocation budget far above the calibrated need and by RecursionError under a limit (3000) far above the bounded depth',
 ]
-EXHAUSTIVE = {'quick': 'all 1-rule graphs (420) and all 2-rule graphs with bodies of <=2 items (3025), battery of 6 inputs from every rule',
+EXHAUSTIVE = {'quick': 'all 1-rule graphs (bodies: choices of <=2 sequences of <=2 items) and all 2-rule graphs with bodies of <=2 items, items = calls, token, optional, closure, positive closure; battery of 6 inputs from every rule',
               'thorough': 'all 1-rule graphs, all 2-rule graphs with bodies of <=3 items (93025), all 3-rule graphs with bodies of <=2 items sampled 1/4'}
 FLOORS = {
     'quick': {'graphs': 5000, 'lrec_graphs': 2000, 'detected_ok': 1500, 'clean_ok': 700, 'parses': 60000,
@@ -42,7 +42,7 @@ NAMES = ['a', 'b', 'c', 'd', 'e', 'f']
 
 
 def items_for(n):
-    return [L.Call(NAMES[i]) for i in range(n)] + [L.Tok('x'), L.Opt(L.Tok('x')), L.Clo(L.Tok('x'))]
+    return [L.Call(NAMES[i]) for i in range(n)] + [L.Tok('x'), L.Opt(L.Tok('x')), L.Clo(L.Tok('x')), L.PClo(L.Tok('x'))]
 
 
 def bodies(n, max_items):
@@ -104,8 +104,10 @@ def random_graph(rng):
             return L.Tok('x')
         if r < 0.85:
             return L.Opt(seq(depth - 1))
-        if r < 0.93:
+        if r < 0.90:
             return L.Clo(seq(depth - 1))
+        if r < 0.93:
+            return L.PClo(seq(depth - 1))
         return L.Group(L.Choice((seq(depth - 1), seq(depth - 1))))
 
     def seq(depth):
